@@ -20,7 +20,7 @@ TECHNIQUE = {
     'C01': 'static analysis: finite abstract evaluation of the selection-algebra code over Boolean atoms (resolved through a static class model/MRO), forward dataflow for copy/freshness (ownership of shared masks), field-flow for copy coverage; direct-store flow of constructors (copy cross-flows); no-in-place-edit lint of the edit modes; borrowed-collection lint (a collection read from an operand is never extended in place); path-condition check of the cache flush in __setattr__ (implied by attribute existence alone); dispatcher applies the mode to every edited subset unconditionally (path condition relative to the loop); the many-way or keeps its own list',
     'C02': 'static analysis: static model of serialiser dispatch (MRO + decorator registries) over the class graph; field-flow of saver keys vs loader keys vs constructor parameters; constructor-signature fit; CFG ordering of yield vs back-references; falsy-default constructor-parameter check for restored values; element-coverage of the collection savers/loaders; unique-name (check-before-insert) and never-rebound callback list obligations of the (un)serialiser; identity-test path condition of the by-name form of saved functions; absence-test guard of record upgrades; C-order lint of the categorical code computation',
     'C03': 'static analysis: must-pass-through on the statement CFG (mutation => recomputation, modulo allowed guards), subscription tables, finally-discipline of context managers, loop-mutation lint, shortcut/value-comparison check; decisive-comparison check of the no-change shortcuts (path conditions as formulas); who-may-drop-an-attribute lint; attribute-coverage check of the dataset-removed handler',
-    'C04': 'static analysis: forward dataflow (view dependence of every return) + CFG reachability under "view is None"; argument-translation check of the forwarding wrapper; must-pass-through for derived structures; rank (1-d only) obligation of the categorical code lookup; relative-index abstract domain (view entries / index tuples normalised before position arithmetic); ownership guard of the pixel-space shortcut; completion of the caller\'s view in IndexedData (None / Ellipsis / single entry / short tuple) read off path conditions; views of categorical arrays inherit categories only; C-order lint of flatten / reshape pairs',
+    'C04': 'static analysis: forward dataflow (view dependence of every return) + CFG reachability under "view is None"; argument-translation check of the forwarding wrapper; must-pass-through for derived structures; rank (1-d only) obligation of the categorical code lookup; relative-index abstract domain (view entries / index tuples normalised before position arithmetic); ownership guard of the pixel-space shortcut; completion of the caller\'s view in IndexedData (None / Ellipsis / single entry / short tuple) read off path conditions; views of categorical arrays inherit categories only; C-order lint of flatten / reshape pairs; boolean-mask views converted to index arrays before completion',
     'C05': 'static analysis: effect summaries (reads/writes with property, call, deep-mutation and __setattr__-hook expansion) of every mutator vs the memoised readers; must-pass-through to a full-coverage invalidation on the CFG; cache-key completeness; invalidation-dominates-broadcast path check; key-determines-reads check of (key, value) caches; taint of the assigned value through the attribute hook; shared shortcut rule (C03.e) under C05.e; fresh-before-mutate dataflow of the array reducers with parameters as the caller\'s arrays',
     'C06': 'static analysis: paired-write check of the two membership collections, must-pass-through for register/unregister on the CFG, class-model resolution of the delegating descriptors, loop-mutation lint; who-deletes-a-grouped-subset lint (group side kept consistent); idempotence of the dataset-added handler; shared undo-membership rule (C13.d) under C06.g; self-sufficiency of the subscriptions made by register_to_hub (fields read by handlers / filters are set by the constructor); every registered DataCollection protocol registers restored groups (call-graph closure over the loaders); hub flush discipline borrowed (C07.b) under C06.h',
     'C07': 'static analysis: dominator/branch-reachability analysis of broadcast on the statement CFG; typestate of the delay block (nesting, finally, outermost flush, detached queue); structural checks of handler selection; only a detached snapshot of the queue may be flushed; stored subscription triple is what was given (identity-with-None guard for the numeric priority, unconditional or fully compared store)',
